@@ -261,10 +261,25 @@ Definition own_namespace (x : input) : Prop := snq_of x = requester x.
 Definition in_force01 (v : C01.Model.optv) (documented_default : bool) : bool :=
   match v with C01.Model.Unset => documented_default | C01.Model.B b => b | C01.Model.StrTrue => true end.
 
+(* the consumer URLs a requester's metadata publishes, each with its binding, given the endpoint specifications of
+   its configuration in any of the three documented spellings: a specification that names a binding publishes its
+   URL under that binding (the index only numbers the element), a bare URL is published under the default binding
+   of the service (metadata.DEFAULT_BINDING, read from the live module into the generated table) *)
+Definition published_as (e : acsconf) : string * string :=
+  match e with
+  | ABare u => (u, acs_default_binding)
+  | APair u b => (u, b)
+  | AIndexed u b _ => (u, b)
+  end.
+
+Definition published (acs : list acsconf) : list (string * string) := map published_as acs.
+
+(* "the chosen consumer URL": the call's destination d is one of the URLs the requester publishes for the binding
+   the Response travels on *)
 Definition same_federation (x : input) (s : spside) (d ctx : string) : Prop :=
   sp_me s = requester x /\ sp_idp s = c_entityid (cfg x)
   /\ requester x <> "" /\ no_outer_ws (requester x) = true
-  /\ a_destination (arg x) = d /\ d <> "" /\ In (C04.Model.EP d (sp_binding s)) (sp_specs s)
+  /\ a_destination (arg x) = d /\ d <> "" /\ In (d, sp_binding s) (published (sp_acs s))
   /\ exists i, a_in_response_to (arg x) = Some i /\ assoc i (sp_outstanding s) = Some ctx.
 
 Definition plain_call (x : input) : Prop :=
@@ -284,8 +299,27 @@ Definition clock_within (s : spside) (r : issued) : Prop :=
    /\ sp_now s - r_issue_instant r <= 86400)%Z.
 
 (* ------------------------------------------------------------ end to end, boolean *)
-Definition is_ep (d b : string) (e : C04.Model.epspec) : bool :=
-  match e with C04.Model.EP u b' => String.eqb u d && String.eqb b' b | C04.Model.Bare _ => false end.
+Definition is_pub (d b : string) (p : string * string) : bool := String.eqb (fst p) d && String.eqb (snd p) b.
+
+(* open finding C09-F3 (class 3): the chosen consumer URL is published only by a BARE specification while some other
+   specification of the same configuration names the binding the Response travels on.  (Config.endpoint hands out
+   the bare URLs only when no specification names the binding asked for.) *)
+Definition names_url_binding (d b : string) (e : acsconf) : bool :=
+  match e with
+  | ABare _ => false
+  | APair u b' => String.eqb u d && String.eqb b' b
+  | AIndexed u b' _ => String.eqb u d && String.eqb b' b
+  end.
+Definition names_binding (b : string) (e : acsconf) : bool :=
+  match e with
+  | ABare _ => false
+  | APair _ b' => String.eqb b' b
+  | AIndexed _ b' _ => String.eqb b' b
+  end.
+Definition bare_shadowed_b (acs : list acsconf) (d b : string) : bool :=
+  negb (existsb (names_url_binding d b) acs) && existsb (names_binding b) acs.
+Definition bare_shadowed (acs : list acsconf) (d b : string) : Prop :=
+  (forall e, In e acs -> names_url_binding d b e = false) /\ exists e, In e acs /\ names_binding b e = true.
 
 Definition plain_call_b (x : input) : bool :=
   match a_issuer (arg x) with None => true | Some i => String.eqb i "" end
@@ -306,7 +340,7 @@ Definition e2e_hyp_b (x : input) (s : spside) (r : issued) : option string :=
   let d := a_destination (arg x) in
   if String.eqb (sp_me s) (requester x) && String.eqb (sp_idp s) (c_entityid (cfg x))
      && negb (String.eqb (requester x) "") && no_outer_ws (requester x)
-     && negb (String.eqb d "") && existsb (is_ep d (sp_binding s)) (sp_specs s)
+     && negb (String.eqb d "") && existsb (is_pub d (sp_binding s)) (published (sp_acs s))
      && plain_call_b x && demands_met_b s r && clock_within_b s r
   then match a_in_response_to (arg x) with Some i => assoc i (sp_outstanding s) | None => None end
   else None.
